@@ -99,7 +99,10 @@ func runC28(c *eng.Ctx) {
 			switch k {
 			case setlk:
 			case setlkw:
-				if !eng.HasAtom(eng.GuardsOfBlock(phi.Block().Preds[i]), "^p1$", true) {
+				// the blocking command arrives along an edge on which `block` is true —
+				// whether it is the assigned-under-`if block` value or the default that
+				// survives `if !block { … }`
+				if !eng.HasAtom(edgeGuards(phi.Block().Preds[i], phi.Block()), "^p1$", true) {
 					cmdOK = false
 				}
 			default:
@@ -144,7 +147,9 @@ func runC28(c *eng.Ctx) {
 	if fld, err := c.P.Field(lockingPkg, "Locker", "held"); err == nil {
 		for _, st := range eng.StoresToField(c.P.ModuleFuncs(), fld) {
 			nm := eng.FuncName(st.Fn)
-			c.Check("R2", "held-writer:"+nm, st.Store.Pos(), strings.HasSuffix(nm, "Locker).Lock") || strings.HasSuffix(nm, "Locker).Unlock"), "held is written only by Lock and Unlock")
+			// (the constructor may spell out the zero value: `held: false`)
+			ctorFalse := strings.HasSuffix(nm, "locking.NewLocker") && constBoolIs(st.Store.Val, false)
+			c.Check("R2", "held-writer:"+nm, st.Store.Pos(), strings.HasSuffix(nm, "Locker).Lock") || strings.HasSuffix(nm, "Locker).Unlock") || ctorFalse, "held is written only by Lock and Unlock")
 		}
 	}
 
